@@ -190,12 +190,15 @@ func verifC04Run(blob []byte, plen int, which int) {
 	emptyMetainfo := verifC04EmptyFile("_torrentmeta")
 	switch which {
 	case verifC04NoEmptySidecar:
-		// the two known defects (FINDINGS.md) have their own harnesses
-		verif.Assume(!emptyStatus && !emptyMetainfo)
+		// full quantifier: every crash point (the two defects of FINDINGS.md
+		// were repaired upstream by creating sidecars atomically)
 	case verifC04EmptyStatus:
-		verif.Assume(emptyStatus)
+		// regression check of the repaired defect F1: a crash must never leave
+		// an empty piece-status sidecar behind (it used to commit a zero file)
+		verif.Assert("no-empty-status-sidecar-after-crash", !emptyStatus)
 	case verifC04EmptyMetainfo:
-		verif.Assume(emptyMetainfo)
+		// regression check of the repaired defect F2
+		verif.Assert("no-empty-metainfo-sidecar-after-crash", !emptyMetainfo)
 	}
 	verif.Cover("crashed", crashed)
 	verif.Cover("not-crashed", !crashed)
